@@ -164,7 +164,7 @@ theorem nodeStep_unprot (t : Tree) (op : Op) (hf : t.flags? = some f) (hr : op.i
       · simp
       · simp only [lDelItem, g]; split <;> simp
     case rebind ps => simp [Op.isRebind] at hr
-    all_goals (show (_, Res.err Err.attr).2 ≠ _; simp)
+    all_goals first | (show (_, Res.err Err.attr).2 ≠ _; simp) | (show (_, Res.ok).2 ≠ _; simp)
   | dict f' kvs =>
     simp [flags?] at hf; subst hf
     have hreb : ∀ us, (rebindNode G env (.dict f' kvs) (kvPairs us) false).2 ≠ .err .perm := by
@@ -191,7 +191,7 @@ theorem nodeStep_unprot (t : Tree) (op : Op) (hf : t.flags? = some f) (hr : op.i
     case dUpdate us => show (dUpdate G env f' kvs us).2 ≠ _; simp only [dUpdate, g]; exact hreb us
     case dIOr us => show (dIOr G env f' kvs us).2 ≠ _; simp only [dIOr, dUpdate, g]; exact hreb us
     case rebind ps => simp [Op.isRebind] at hr
-    all_goals (show (_, Res.err Err.attr).2 ≠ _; simp)
+    all_goals first | (show (_, Res.err Err.attr).2 ≠ _; simp) | (show (_, Res.ok).2 ≠ _; simp)
   | obj f' cls attrs =>
     simp [flags?] at hf; subst hf
     cases op
@@ -203,7 +203,7 @@ theorem nodeStep_unprot (t : Tree) (op : Op) (hf : t.flags? = some f) (hr : op.i
         · revert hw; simp only [writable, Flags.container]; split <;> simp
       simp only [oSetAttr, g, gc]; split <;> simp
     case rebind ps => simp [Op.isRebind] at hr
-    all_goals (show (_, Res.err Err.attr).2 ≠ _; simp)
+    all_goals first | (show (_, Res.err Err.attr).2 ≠ _; simp) | (show (_, Res.ok).2 ≠ _; simp)
 
 end Unprot
 
